@@ -349,6 +349,12 @@ impl Lmdb {
         when: Time,
     ) -> Result<(), Error> {
         let key = Self::key_naddr_index(addr);
+        // A deletion time never moves backwards (an older request may arrive later)
+        if let Some(existing) = self.deleted_naddrs.get(txn, &key)? {
+            if existing >= when.as_u64() {
+                return Ok(());
+            }
+        }
         self.deleted_naddrs.put(txn, &key, &when.as_u64())?;
         Ok(())
     }
